@@ -134,6 +134,14 @@ def run(ck):
                                  meta={'class': 'pair', 't': [100 + 10 * i for i in range(n)]})
                         outs.append((c, run_case(ck, c, allow_refused=True)))
                     compare_outcomes(ck, test, outs, f'{loose} -> {strict}')
+                    # the stricter set read back as numpy scalars (np.int64 / np.float32: an xarray attribute, a DataFrame cell) is the same set
+                    if n == ns[-1] and p == plist[0]:
+                        from ..qc import numpy_scalar_params
+                        for kind in ('int64', 'float32'):
+                            c = Case(test, build(p), numpy_scalar_params(fr(strict), kind), n=n, pat={'inp': p} if ninp == 1 else {'lon': p[0], 'lat': p[1]},
+                                     meta={'class': 'pair', 't': [100 + 10 * i for i in range(n)]})
+                            c.label = f'{c.label} [parameters as np.{kind}]'
+                            compare_outcomes(ck, test, [outs[0], (c, run_case(ck, c, allow_refused=True))], f'{loose} -> {strict} as np.{kind}')
     # climatology member spans
     feats = {}
     for lm, sm in clim_pairs():
